@@ -151,10 +151,18 @@ def signed_int_to_bytes(bytes):
 
 def define_blockshape_2d(bits_per_voxel, blockshape):
     assert blockshape[0] == 1
-    return define_blockshape_3d(bits_per_voxel, blockshape)
+    return _define_blockshape(bits_per_voxel, blockshape, is_2d=True)
 
 
 def define_blockshape_3d(bits_per_voxel, blockshape):
+    return _define_blockshape(bits_per_voxel, blockshape, is_2d=False)
+
+
+def _is_power_of_two(n):
+    return n == int(n) and int(n) > 0 and int(n) & (int(n) - 1) == 0
+
+
+def _define_blockshape(bits_per_voxel, blockshape, is_2d):
     if sum([1 for n in list(blockshape) + [bits_per_voxel] if n == -1]) > 1:
         raise ValueError("Blockshape is underdefined")
 
@@ -164,7 +172,11 @@ def define_blockshape_3d(bits_per_voxel, blockshape):
     bits_per_voxel = 1 / -bits_per_voxel if bits_per_voxel < -1 else bits_per_voxel
 
     if bits_per_voxel == -1:
+        if min(blockshape) < 1:
+            raise ValueError("Blockshape is underdefined")
         bits_per_voxel = DISK_BLOCK_BYTES * 8 / (blockshape[0] * blockshape[1] * blockshape[2])
+    elif bits_per_voxel <= 0:
+        raise ValueError(f"Invalid bits_per_voxel: {bits_per_voxel}")
     else:
         if blockshape[0] == -1:
             blockshape = (int(DISK_BLOCK_BYTES * 8 //
@@ -177,6 +189,21 @@ def define_blockshape_3d(bits_per_voxel, blockshape):
                                                             (blockshape[0] * blockshape[1] * bits_per_voxel)))
         else:
             assert(bits_per_voxel * blockshape[0] * blockshape[1] * blockshape[2] == DISK_BLOCK_BYTES * 8)
+
+    # Whichever parameter was worked out, the result must be something which can be written and read back:
+    # a bitrate ZFP codes exactly in whole bytes per 4x4(x4) unit, dimensions of whole units which are
+    # powers of two, and exactly one disk block of bits.
+    valid_bitrates = [1, 2, 4, 8, 16, 32] if is_2d else [0.25, 0.5, 1, 2, 4, 8, 16, 32]
+    if bits_per_voxel not in valid_bitrates:
+        raise ValueError(f"Invalid bits_per_voxel: {bits_per_voxel}, must be one of {valid_bitrates}")
+    min_dims = (1, 4, 4) if is_2d else (4, 4, 4)
+    for n, min_dim in zip(blockshape, min_dims):
+        if n < min_dim or not _is_power_of_two(n):
+            raise ValueError(f"Invalid blockshape: {blockshape}, dimensions must be powers of 2, at least {min_dims}")
+    if is_2d and blockshape[0] != 1:
+        raise ValueError(f"Invalid blockshape: {blockshape}, first dimension must be 1 for 2D")
+    if bits_per_voxel * blockshape[0] * blockshape[1] * blockshape[2] != DISK_BLOCK_BYTES * 8:
+        raise ValueError(f"Invalid blockshape: {blockshape} at {bits_per_voxel} bits per voxel does not fill a disk block")
     return bits_per_voxel, blockshape
 
 
